@@ -43,6 +43,15 @@ def new_executor(ctx, prog, mode=None, contracts=None, merge_fns=(), unwind=40):
     return ex
 
 
+class NativeViolation(Exception):
+    """raised by a spec's co-simulation when the NATIVE build itself contradicts the property's oracle on a concrete input (as opposed
+    to the interpreter disagreeing with the native build, which is a translator problem and ends inconclusive)"""
+
+    def __init__(self, line, observed, expected, profile="dev"):
+        Exception.__init__(self, "native build contradicts the oracle: %s -> %r, expected %r" % (line, observed, expected))
+        self.replay = {"reproduced": True, "line": line, "observed": observed, "expected": expected, "profile": profile}
+
+
 class Res:
     """accumulates the result of one case"""
 
